@@ -50,6 +50,9 @@ def check(run):
             run.fail("NPAPI", dotted, f"{path}:{line}", CLS, f"{dotted}",
                      f"{dotted} " + ("is removed in NumPy 2" if removed else "does not exist") +
                      f" (installed NumPy {npapi.numpy_version()}): the tracker cannot be constructed/used")
+    for path, line, what, why in npapi.call_hazards(prog, {cls.module.name}):
+        bad += 1
+        run.fail("NPAPI", what, f"{path}:{line}", CLS, what, why)
     if not bad:
         run.ok("NPAPI", cls.module.name, f"{len(refs)} numpy references resolve in NumPy {npapi.numpy_version()}: "
                + ", ".join(sorted({d for _, _, d in refs})))
@@ -98,6 +101,8 @@ def check(run):
     for p in ps:
         st = [e for e in p.events if isinstance(e, ir.SubStore) and e.cont == B]
         gtxt0 = " & ".join(ir.show_nl(g) for g in p.guards) or "always"
+        if p.exit == "raise" and not st:
+            continue                    # an input rejected before anything is stored
         if len(st) != 1:
             problems += 1
             run.fail("RING", "store-once", f"{s.path}:{s.fn.lineno}", fq, f"{len(st)} buffer stores [{gtxt0}]",
@@ -169,6 +174,16 @@ def check(run):
             why = "variance is computed as E[x^2] - E[x]^2 (catastrophic cancellation: not the variance of the window in floats)"
         elif B not in ir.subterms(g.ret):
             why = "the result is not computed from the window buffer"
+        elif g.ret[0] == "gate":
+            # the aggregate is bypassed on some condition of the tracker's state
+            from .algebra import arms
+            odd = [(facts, v) for facts, v in arms(g.ret)
+                   if not any(t[0] == "fn" and t[1] in aggs and t[2] and t[2][0] == B for t in ir.subterms(v))]
+            if not odd:
+                raise AnalysisError(f"{CLS}.{name} has an unrecognised aggregate shape: {ir.show_nl(g.ret)}")
+            facts, v = odd[0]
+            why = f"when {' & '.join(ir.show_nl(f)[:60] for f in facts)} it returns {ir.show_nl(v)[:60]} instead (the write " \
+                  f"position also takes that value while the window holds observations)"
         else:
             raise AnalysisError(f"{CLS}.{name} has an unrecognised aggregate shape: {ir.show_nl(g.ret)}")
         run.fail("NAN", f"get.{name}", f"{g.path}:{g.fn.lineno}", f"{CLS}.{name}", f"{name} = {ir.show_nl(g.ret)[:160]}",
@@ -177,6 +192,25 @@ def check(run):
     run.check(c.ret == prog.summarise(cls, "mean").ret or ir.strip_sites(c.ret) == ir.strip_sites(prog.summarise(cls, "mean").ret),
               "NAN", "get.__call__", f"{c.path}:{c.fn.lineno}", f"{CLS}.__call__", f"call = {ir.show_nl(c.ret)}",
               "calling the tracker must report the window mean", "__call__ = mean")
+    _get_is_mean(run, prog, cls)
+
+
+def _get_is_mean(run, prog, cls):
+    """get() (inherited from the tracker base class) reports the same fresh window mean."""
+    owner, fn = prog.find_method(cls, "get")
+    if fn is None:
+        return
+    g = prog.summarise(cls, "get")
+    mean = prog.summarise(cls, "mean").ret
+    ok = ir.strip_sites(g.ret) == ir.strip_sites(mean)
+    why = ""
+    if not ok:
+        stored = sorted({t[1] for t in ir.subterms(g.ret) if t[0] == "field0" and ("field0", t[1]) not in ir.subterms(mean)})
+        why = (f"it goes through stored state {stored} (a value kept from an earlier call is returned while its validity "
+               f"test holds; this tracker never changes the fields the test looks at)") if stored else \
+            f"it returns {ir.show_nl(g.ret)[:120]}"
+    run.check(ok, "NAN", "get.get", f"{g.path}:{g.fn.lineno}", f"{CLS}.get", f"get = {ir.show_nl(g.ret)[:120]}",
+              f"get() must report the current window mean on every call: {why}", "get = mean")
 
 
 def _nan_buffer(t, k):
